@@ -4,7 +4,7 @@ R10.1  mutation inventory of generate_init_segment: between load_fragment() and
        encode() the atom tree is changed by exactly
          * atom.moov.append_child(pssh)  under representation.encrypted, inside the
            loop over the DrmContext, under `drm.moov is not None`
-         * del atom.moov.mehd            under mode == 'live'
+         * del atom.moov.mvex.mehd           under mode == 'live'
        anything else (another edit call, attribute store, weaker guard) is reported.
 R10.2  every init-segment route reaches generate_init_segment and nothing else
        on those handlers encodes an atom.
@@ -18,7 +18,7 @@ from __future__ import annotations
 import ast
 
 from ..core import (AnalysisError, Report, call_name, dotted, find_class, find_func, need,
-                    norm, short, ancestors)
+                    norm, short, ancestors, enclosing_function)
 from ..index import Index
 
 MR = 'dashlive/server/requesthandler/media_requests.py'
@@ -66,14 +66,14 @@ def r10_1(rep: Report) -> None:
             out.append('loaded')
         if any(c_ is enc[0] for c_ in ast.walk(st)):
             out.append('encoded')
-        if isinstance(st, ast.Delete) and any(norm(t) == f'{atom}.moov.mehd' for t in st.targets):
+        if isinstance(st, ast.Delete) and any(norm(t) == MEHD_PATH.format(atom=atom) for t in st.targets):
             out.append('mehd-deleted')
         # `try: del atom.moov.mehd  except AttributeError: ...` - the handler path is "there was no mehd"
         h = getattr(st, '_parent', None)
         if isinstance(h, ast.ExceptHandler) and h.type is not None and 'AttributeError' in norm(h.type):
             tr = getattr(h, '_parent', None)
             if isinstance(tr, ast.Try) and any(
-                    isinstance(d, ast.Delete) and any(norm(t) == f'{atom}.moov.mehd' for t in d.targets)
+                    isinstance(d, ast.Delete) and any(norm(t) == MEHD_PATH.format(atom=atom) for t in d.targets)
                     for b_ in tr.body for d in ast.walk(b_)):
                 out.append('mehd-deleted')
         return out
@@ -134,7 +134,7 @@ def r10_1(rep: Report) -> None:
                     kind = 'pssh'
             elif isinstance(n, ast.Delete) and any(norm(t).startswith(atom) for t in n.targets):
                 mut = norm(n)
-                if len(n.targets) == 1 and norm(n.targets[0]) == f'{atom}.moov.mehd':
+                if len(n.targets) == 1 and norm(n.targets[0]) == MEHD_PATH.format(atom=atom):
                     kind = 'mehd'
             elif isinstance(n, (ast.Assign, ast.AugAssign)):
                 tg = n.targets if isinstance(n, ast.Assign) else [n.target]
@@ -386,6 +386,70 @@ def r10_5(rep: Report) -> None:
                  '`drm=playready-cenc,clearkey` gives clearkey the location set {cenc})', use)
 
 
+# where the MovieExtendsHeaderBox lives (ISO/IEC 14496-12 8.8.2: mehd is a child of mvex); a deletion by
+# any other path finds nothing - R10.6 checks every box path against the containment table below
+MEHD_PATH = '{atom}.moov.mvex.mehd'
+
+# ISO/IEC 14496-12 containment of the boxes the server's code reaches by attribute path (the parser
+# is generic: `a.b` on a box looks for a *direct* child of type b and raises AttributeError otherwise)
+BOX_CHILDREN: dict[str, set[str]] = {
+    'moov': {'mvhd', 'trak', 'mvex', 'udta', 'pssh', 'meta', 'iods'},
+    'mvex': {'mehd', 'trex', 'leva'},
+    'trak': {'tkhd', 'tref', 'edts', 'mdia', 'udta', 'meta'},
+    'mdia': {'mdhd', 'hdlr', 'minf', 'elng'},
+    'minf': {'vmhd', 'smhd', 'hmhd', 'sthd', 'nmhd', 'dinf', 'stbl'},
+    'stbl': {'stsd', 'stts', 'ctts', 'stsc', 'stsz', 'stz2', 'stco', 'co64', 'stss', 'sgpd', 'sbgp', 'saiz',
+             'saio', 'subs'},
+    'moof': {'mfhd', 'traf', 'pssh', 'meta'},
+    'traf': {'tfhd', 'tfdt', 'trun', 'sbgp', 'sgpd', 'subs', 'saiz', 'saio', 'senc', 'uuid'},
+    'sinf': {'frma', 'schm', 'schi'},
+    'schi': {'tenc', 'uuid'},
+    'edts': {'elst'},
+    'dinf': {'dref'},
+}
+
+
+def r10_6(rep: Report) -> None:
+    """box paths in the server code name direct children: `x.moov.mehd` asks moov for a direct child
+    `mehd`, which ISO/IEC 14496-12 places in mvex - the lookup raises AttributeError, and a
+    `del` under `except AttributeError: pass` silently removes nothing."""
+    rid = 'R10.6'
+    mp4 = rep.repo.tree('dashlive/mpeg/mp4.py')
+    registered: set[str] = set()
+    for n in ast.walk(mp4):
+        if isinstance(n, ast.ClassDef):
+            for d in n.decorator_list:
+                if isinstance(d, ast.Call) and call_name(d) == 'fourcc' and d.args \
+                        and isinstance(d.args[0], ast.Constant):
+                    registered.add(d.args[0].value)
+    known = registered | set(BOX_CHILDREN) | {c for v in BOX_CHILDREN.values() for c in v}
+    if len(registered) < 30:
+        raise AnalysisError('box registry (@fourcc) not found in mp4.py')
+    n_paths = 0
+    for rel in rep.repo.py_files('dashlive'):
+        if rel.startswith('dashlive/mpeg/mp4') or '/migrations/' in rel:
+            continue
+        tree = rep.repo.tree(rel)
+        for n in ast.walk(tree):
+            if not (isinstance(n, ast.Attribute) and isinstance(n.value, ast.Attribute)):
+                continue
+            parent_, child = n.value.attr, n.attr
+            if parent_ in BOX_CHILDREN and child in known and child not in ('parent', 'children'):
+                n_paths += 1
+                fn = enclosing_function(n)
+                construct = f'{rel}::{fn.name if fn is not None else "<module>"}'
+                if child in BOX_CHILDREN[parent_]:
+                    rep.ok(rid, construct, f'{parent_}.{child}')
+                else:
+                    home = sorted(p_ for p_, cs in BOX_CHILDREN.items() if child in cs)
+                    rep.fail(rid, construct, f'{parent_}.{child}',
+                             f'`{norm(n)}` looks for a direct child `{child}` of `{parent_}`, but ISO/IEC 14496-12 '
+                             f'places {child} in {home or "another container"}: the lookup raises AttributeError '
+                             '(a deletion guarded by `except AttributeError` removes nothing)', n, file=rel)
+    if n_paths < 10:
+        raise AnalysisError(f'only {n_paths} box paths found in the server code')
+
+
 def analyse(rep: Report) -> None:
     rep.explanation = (
         'Mutation inventory of generate_init_segment (every tree edit between load_fragment and '
@@ -401,8 +465,10 @@ def analyse(rep: Report) -> None:
     rep.rule('R10.4', 'fragment loaded read-write as the stored window; keys from the representation',
              floor=4)
     rep.rule('R10.5', 'the drm selection parser keeps no state between listed systems', floor=1)
+    rep.rule('R10.6', 'box paths name direct children (ISO/IEC 14496-12 containment)', floor=10)
     r10_1(rep)
     r10_2(rep)
     location_gating(rep, 'R10.3')
     r10_4(rep)
     r10_5(rep)
+    r10_6(rep)
